@@ -3,6 +3,7 @@ package main
 import (
 	"fmt"
 	"go/types"
+	"regexp"
 	"sort"
 	"strings"
 
@@ -86,6 +87,7 @@ func (e *Engine) dispatchCall(st *State, cc *ssa.CallCommon, site ssa.Instructio
 	sig := cc.Signature()
 	e.unmodelled["dynamic call in "+e.oblPrefix(fr.fn)] = true
 	e.bumpAlloc(st)
+	e.havocArgs(st, args)
 	var rs []Val
 	for i, t := range resultTypes(sig) {
 		rs = append(rs, e.freshOf(st, fmt.Sprintf("dyn_r%d", i), t))
@@ -154,6 +156,11 @@ func (e *Engine) callFunc(st *State, fn *ssa.Function, binds []Val, args []Val, 
 		for h := range e.P.modset(e, fn) {
 			e.heapHavoc(st, h)
 		}
+		// plus everything reachable through the arguments in one step (dynamic calls inside
+		// the callee are invisible to the mod-set analysis)
+		e.havocArgs(st, args)
+	} else if !readOnlyCallee(fn.Name()) {
+		e.havocArgs(st, args)
 	}
 	var rs []Val
 	for i, t := range resultTypes(fn.Signature) {
@@ -247,6 +254,9 @@ func (e *Engine) invoke(st *State, cc *ssa.CallCommon, site ssa.Instruction, rec
 	}
 	e.unmodelled["invoke "+ikey] = true
 	e.bumpAlloc(st)
+	if !readOnlyCallee(mname) {
+		e.havocArgs(st, args)
+	}
 	var rs []Val
 	for i, t := range resultTypes(sig) {
 		rs = append(rs, e.freshOf(st, fmt.Sprintf("%s_r%d", mname, i), t))
@@ -553,6 +563,10 @@ func (e *Engine) applyContract(st *State, c *Contract, fn *ssa.Function, sig *ty
 		hint := fmt.Sprintf("%s_r%d", mangle(c.Key), i)
 		rs = append(rs, e.freshOf(st, hint, t))
 	}
+	if c.Pure && fn != nil && len(rs) == 1 {
+		// a pure function with a contract: the result is the function application itself
+		rs[0] = e.pureApp(st, fn, args)
+	}
 	env.st = st
 	env.results = rs
 	env.inEnsures = true
@@ -726,7 +740,7 @@ func (e *Engine) resolveModifies(st *State, env *Env, m string) modLoc {
 	}
 	base := e.evalSpec(st, env, sel.X)
 	if h, srt, _, ok := e.absFieldOf(base.Typ, sel.Name); ok {
-		return modLoc{heap: h, sort: srt, ref: base.T}
+		return modLoc{heap: h, sort: srt, ref: e.absRef(base)}
 	}
 	pt, ok := base.Typ.Underlying().(*types.Pointer)
 	if !ok {
@@ -823,6 +837,11 @@ func (e *Engine) checkFrame(st *State, fn *ssa.Function, c *Contract, env *Env) 
 		}
 	}
 }
+
+var readOnlyRe = regexp.MustCompile(`^(Write|WriteString|Equal|Hash|Sum|Compare|Contains|Count|Index|HasPrefix|HasSuffix|Marshal|MarshalVT|Size|SizeVT|String|Error|Is|As|Unwrap|Printf|Errorf|Sprintf|Fprintf|Debug|Info|Warn|Put|Get|Delete|Acquire|Renew|Release|Prefix[A-Z]\w*|Send|Join|Split\w*|Trim\w*|ToLower|ToUpper|Len|Verify|Sign|Encode\w*|Itoa|Format\w*|Parse\w*)$`)
+
+// readOnlyCallee: library functions that by their documented contract do not write through their arguments.
+func readOnlyCallee(name string) bool { return readOnlyRe.MatchString(stripTypeArgs(name)) }
 
 // bumpAlloc: a call may have allocated; later results may be newer than the old watermark.
 func (e *Engine) bumpAlloc(st *State) {
